@@ -173,6 +173,18 @@ func (c *cursorManager) GetCursor(ctx context.Context, streamName, cursorID stri
 		c.mu.RUnlock()
 	}
 
+	// Hold the write lock while reading the log and filling the cache.
+	// SetCursor holds it while it publishes and caches, so a cursor stored
+	// after we read the log cannot be overwritten in the cache by the older
+	// value we found.
+	c.mu.Lock()
+	defer c.mu.Unlock()
+	if !c.disableCache {
+		if offset, ok := c.cache.Get(string(cursorKey)); ok {
+			return offset.(int64), nil
+		}
+	}
+
 	// Find the latest offset for the cursor in the log.
 	offset, err := c.getLatestCursorOffset(ctx, cursorKey, partition)
 	if err != nil {
@@ -180,9 +192,7 @@ func (c *cursorManager) GetCursor(ctx context.Context, streamName, cursorID stri
 	}
 
 	// Cache the offset.
-	c.mu.Lock()
 	c.cache.Add(string(cursorKey), offset)
-	c.mu.Unlock()
 
 	return offset, nil
 }
